@@ -18,6 +18,16 @@ TEXT = {
         "note": KERNEL + "the model's own insertion sort stands for slice::sort_by (only sortedness+permutation are used in the proof); shuffle = arbitrary permutation.",
         "technique": "Lean 4 proof (decision logic over all permutations; sortedness + permutation lemmas) + admissibility check of the implementation's answers",
     },
+    "C14": {
+        "level": "Kernel-checked for all histories (connects, disconnects, interest changes, bitfield arrivals, admissible rotations) and an arbitrary slot "
+                 "limit: regular unchoked <= MAX_UNCHOKED and optimistic <= MAX_OPTIMISTIC in every reachable state (T1, invariant by induction over the "
+                 "history; constants <= 10 / <= 1 by decide); after every rotation slot holders are interested, no interested peer with a strictly better rate "
+                 "than a slot holder stays choked, uninterested peers are choked, for any tie order (T2); the broadcast am_choked_map has an entry exactly for "
+                 "the peers whose flag changed, with the new value (T3). Tied to the real Session by command histories compared after every operation.",
+        "note": KERNEL + "modelled: HashMap iteration order = arbitrary permutation (the rotation theorem quantifies over every rate-sorted order); "
+                "assumed: broadcast delivery to every connection task (channel capacity), see DESIGN.md.",
+        "technique": "Lean 4 proof (invariant by induction over operation histories + loop lemmas) + differential correspondence on command histories",
+    },
     "C07": {
         "level": "Kernel-checked theorems for all field values and all payloads: encode = BEP3 layout (T1), parse(encode m ++ rest) = (m, |encode m|) (T2), "
                  "be32 inverse (T3), bitfield round trip / byte count / bit position for every piece count (T4), id table (T5). The model is tied to the Rust "
